@@ -89,7 +89,7 @@ gen::FuncParams make_func_params(const RoundSpec& s, uint32_t i, bool global_con
   fp.seed = r.next();
   fp.live_values = uint32_t(2 + r.below(r.chance(1, 4) ? 40 : 10));
   fp.blocks = uint32_t(r.below(5));
-  fp.calls = r.chance(1, 2); fp.jump_table = r.chance(1, 2); fp.consts = r.chance(1, 2); fp.stack = r.chance(1, 2); fp.vec = r.chance(1, 2);
+  fp.calls = r.chance(1, 2); fp.jump_table = r.chance(1, 2); fp.consts = r.chance(1, 2); fp.stack = r.chance(1, 2); fp.vec = r.chance(1, 2); fp.avx = r.chance(1, 2); fp.vec_live = r.chance(1, 3) ? uint32_t(7 + r.below(14)) : 0;
   fp.global_consts = global_consts;
   return fp;
 }
